@@ -5,15 +5,24 @@ from ..gen import Opt, schema_lines, MULTI, TITLE, NOCASE
 from .C06 import with_include
 from .C01 import hand_schemas
 
-THEOREMS = ["C13_errors", "C13_enter", "C13_return", "C13_position_roundtrip", "C13_depth_limit", "C13_enter_positions_only", "C13_positions_irrelevant"]
-PARTIAL = ("Proved: entering a good target saves the includer's file name and line and starts at line 1; reaching its end restores them (round trip "
-           "is the identity); missing / directory / unresolvable / too deep targets reject with one diagnostic at the includer's position and leave the "
-           "stack of open sources unchanged; entering an include changes nothing but positions and the source stack (C13_enter_positions_only), and "
-           "positions - whatever file name and line an include left anywhere in the machine - can never influence acceptance, values, callbacks or "
-           "diagnostic classes of the tokens that follow (C13_positions_irrelevant, from the erasure theorem pstep_nat). Together with C01_refinement "
-           "(the token run is compositional) this is the splice property at the level of token sequences. Not proved: the byte-level statement for "
-           "parseLoop (that scanning file A up to the include, then file B, then the rest of A yields the token sequence of the spliced text - true "
-           "when the pieces end at token boundaries); the implementation-side oracle compares split and flat dumps on every case.")
+THEOREMS = ["C13_errors", "C13_enter", "C13_return", "C13_position_roundtrip", "C13_depth_limit", "C13_enter_positions_only", "C13_positions_irrelevant",
+            "C13_include_in_place", "joint_run", "same_run", "core_observable", "C13_splice", "lexInitial_app", "lexInitial_bump", "pstep_srcs",
+            "C13_loop_reads_scan", "C13_loop_reads_eof", "loop_mono"]
+PARTIAL = ("Proved: C13_include_in_place - two runs of the byte-level parse loop (scanner + token machine + include handling) are compared: one in "
+           "which the text a of an included file sits on the source stack above the includer's remaining text o (with any number of sources above it - "
+           "includes nested inside a - and below), one in which the single source a ++ o stands in their place. They end in machines that agree on "
+           "everything but positions and the source stack: same acceptance, same values at every depth, same callback invocations, same diagnostic "
+           "classes in order (core_observable) - or the nested run, being one level deeper, was rejected with 'includes nested too deeply' (the one "
+           "difference there can be; it is part of the statement). Hypotheses on a: no '$' (the look-ahead of ${...} is unbounded), it ends in a "
+           "newline, it scans on its own without a scanner error. Ingredients: the scanner is stable under appending text (lexInitial_app, for every "
+           "scanner path; C13_splice for whole buffers: no token is cut, merged or re-read across the joint), its line counter is a pure accumulator "
+           "(lexInitial_bump), the token machine neither reads nor writes the source stack (pstep_srcs, 15 per-state lemmas), position erasure "
+           "(pstep_nat), and a two-phase simulation over the loop with fuel accounting (joint_run / same_run / loop_mono). Also: entering a good "
+           "target saves the includer's file name and line and starts at line 1; reaching its end restores them; missing / directory / unresolvable / "
+           "too deep targets reject with one diagnostic at the includer's position and leave the stack of open sources unchanged. Not proved: texts "
+           "with '$' or without a final newline (an unquoted word at the very end of a file would merge with what follows the include call only if "
+           "that starts with a word byte - it starts with the rest of the line after ')'); 'never a lasting loss of include capacity' after an error "
+           "inside an included file is C08/C07 territory and is compared by the tie.")
 VARIANT = "asan"
 CASE_TIMEOUT = 20
 RULE = ("accepted texts as lists of top-level (and section-body) items, split at item boundaries into a tree of include files of "
